@@ -1,5 +1,129 @@
 import AiocoapModel.Basic.Bytes
-/-! Line protocol for C19 (not built yet). -/
+import AiocoapModel.Apps.FileServer
+/-! Line protocol for the file-server model.
+
+Strings are hex of their UTF-8 bytes (`-` = empty).  A component list is `~` (empty list) or
+comma-separated strings; a path is `<anchor 0|1|2>:<parts, comma-separated, may be empty>`.
+
+`C19 J <a> <b>`            → `<path of PurePosixPath(a, b)> <str(path)>`
+`C19 P <root> <comps>`     → `ok <path>` | `err`
+`C19 R <write><etags> <root> <G|P|D|X> <comps> <inm><im><imEmpty> <block2: -|num:szx>
+       <stat a|s|h|d|f|x> <etagMatches><ifMatchHit><obsPending><parentIsDir> <tmpName>
+       <children: ~ | name:0|1,…> <content>`
+     → `<code|crash> <block2 -|num:m:szx> <payload> nba=<0|1> |<op>*`
+       ops: `S<path>` stat, `O<path>` open-read, `L<path>` listdir, `T<dir>` mkstemp,
+       `R<src>><dst>` rename, `U<path>` unlink, `M<path>` mkdir, `D<path>` rmdir
+-/
 namespace Aiocoap
-def handleC19 (_args : List String) : String := "out-of-model"
+open Aiocoap.FileServer
+
+namespace FileServer
+
+def parseStrList (s : String) : Option (List Str) :=
+  if s = "~" then some [] else (s.splitOn ",").mapM hexToBytes
+
+def parsePPath (s : String) : Option PPath :=
+  match s.splitOn ":" with
+  | [r, parts] => do
+    let r ← r.toNat?
+    if r > 2 then none else
+    let ps ← (if parts = "" then some [] else (parts.splitOn ",").mapM hexToBytes)
+    pure { root := r, parts := ps }
+  | _ => none
+
+def showPPath (p : PPath) : String :=
+  s!"{p.root}:" ++ ",".intercalate (p.parts.map bytesToHex)
+
+def parseBit (c : Char) : Option Bool :=
+  if c = '1' then some true else if c = '0' then some false else none
+
+def parseBits (s : String) (n : Nat) : Option (List Bool) :=
+  if s.length = n then s.toList.mapM parseBit else none
+
+def parseMethod (s : String) : Option Method :=
+  match s with
+  | "G" => some .get | "P" => some .put | "D" => some .delete | "X" => some .other
+  | _ => none
+
+def parseStat (s : String) : Option StatRes :=
+  match s with
+  | "a" => some .absent | "s" => some .softErr | "h" => some .hardErr
+  | "d" => some .dir | "f" => some .file | "x" => some .special
+  | _ => none
+
+def parseBlock2 (s : String) : Option (Option (Nat × Nat)) :=
+  if s = "-" then some none else
+  match s.splitOn ":" with
+  | [n, z] => do
+    let n ← n.toNat?
+    let z ← z.toNat?
+    pure (some (n, z))
+  | _ => none
+
+def parseChild (s : String) : Option (Str × Bool) :=
+  match s.splitOn ":" with
+  | [n, d] => do
+    let n ← hexToBytes n
+    let d ← (if d = "1" then some true else if d = "0" then some false else none)
+    pure (n, d)
+  | _ => none
+
+def parseChildren (s : String) : Option (List (Str × Bool)) :=
+  if s = "~" then some [] else (s.splitOn ",").mapM parseChild
+
+def showOutcome : Outcome → String
+  | .crash => "crash"
+  | .code c d => s!"{c}." ++ (if d < 10 then s!"0{d}" else s!"{d}")
+
+def showBlock2 : Option (Nat × Bool × Nat) → String
+  | none => "-"
+  | some (n, m, z) => s!"{n}:{if m then 1 else 0}:{z}"
+
+def showOp : FsOp → String
+  | .stat p => "S" ++ showPPath p
+  | .openRead p => "O" ++ showPPath p
+  | .scandir p => "L" ++ showPPath p
+  | .mkstemp p => "T" ++ showPPath p
+  | .rename a b => "R" ++ showPPath a ++ ">" ++ showPPath b
+  | .unlink p => "U" ++ showPPath p
+  | .mkdir p => "M" ++ showPPath p
+  | .rmdir p => "D" ++ showPPath p
+
+def showResult (req : Request) (r : Result) : String :=
+  " ".intercalate
+    ([showOutcome r.resp.outcome, showBlock2 r.resp.block2, bytesToHex r.resp.payload,
+      s!"nba={if needsBlockwiseAssembly req then 1 else 0}", "|"] ++ r.ops.map showOp)
+
+end FileServer
+
+def handleC19 (args : List String) : String :=
+  match args with
+  | ["J", a, b] =>
+    match hexToBytes a, hexToBytes b with
+    | some a, some b =>
+      let p := parsePath (posixJoin a b)
+      showPPath p ++ " " ++ bytesToHex p.str
+    | _, _ => "bad-op"
+  | ["P", root, comps] =>
+    match parsePPath root, parseStrList comps with
+    | some root, some comps =>
+      match requestToLocalPath root comps with
+      | .ok p => "ok " ++ showPPath p
+      | .error _ => "err"
+    | _, _ => "bad-op"
+  | ["R", cf, root, meth, comps, rf, b2, st, wf, tmp, children, content] =>
+    match parseBits cf 2, parsePPath root, parseMethod meth, parseStrList comps, parseBits rf 3,
+        parseBlock2 b2, parseStat st, parseBits wf 4, hexToBytes tmp, parseChildren children,
+        hexToBytes content with
+    | some [write, etags], some root, some meth, some comps, some [inm, im, ime], some b2,
+        some st, some [em, hit, obs, pdir], some tmp, some children, some content =>
+      let cfg : Config := { root, write, etags }
+      let req : Request := { method := meth, path := comps, ifNoneMatch := inm, ifMatch := im,
+                             ifMatchEmpty := ime, block2 := b2 }
+      let w : World := { stat := st, etagMatches := em, ifMatchHit := hit, content,
+                         children, obsPending := obs, parentIsDir := pdir, tmpName := tmp }
+      showResult req (handle cfg req w)
+    | _, _, _, _, _, _, _, _, _, _, _ => "bad-op"
+  | _ => "bad-op"
+
 end Aiocoap
